@@ -97,6 +97,9 @@ def check_schema(ctx, ast, fe, lits, tag, maxlen, extra):
     text = L.txt_ast(ast, rng)
     sa = L.sx_ast(ast)
     r = L.impl_compile(text)
+    if L.too_big(r):
+        ctx.stat('schemas.skipped-huge-model')
+        return
     m = M([1, sa])
     case = {'schema': text}
     m2 = M([10, sa])
